@@ -540,6 +540,45 @@ func (e *Executor) LoadDependencyOutputs(
 	return nil
 }
 
+// LoadTargetOutputs makes sure that the outputs of target itself are in the workspace.
+// With load_outputs=minimal a cache hit leaves the outputs of a target unloaded; callers that
+// need them after the build (grog run starts the bin output) have to ask for them. If the
+// outputs cannot be loaded from the cache the target is run again, after the outputs of its
+// own dependencies have been loaded.
+func (e *Executor) LoadTargetOutputs(
+	ctx context.Context,
+	target *model.Target,
+	update worker.StatusFunc,
+) error {
+	if target.OutputsLoaded {
+		return nil
+	}
+
+	targetResult, loadErr := e.targetCache.Load(ctx, target.ChangeHash)
+	if loadErr == nil {
+		progress := worker.NewProgressTracker(
+			fmt.Sprintf("%s: loading %s", target.Label, console.FCountOutputs(len(target.AllOutputs()))),
+			0,
+			update,
+		)
+		loadErr = e.registry.LoadOutputs(ctx, target, targetResult, progress)
+	}
+	if loadErr == nil {
+		return nil
+	}
+
+	if err := e.LoadDependencyOutputs(ctx, target, update); err != nil {
+		return err
+	}
+	binTools, err := e.getBinToolPaths(target)
+	if err != nil {
+		return err
+	}
+	outputIdentifiers := e.getDependencyOutputIdentifiers(target)
+	_, err = e.executeTarget(ctx, target, binTools, outputIdentifiers, update, false)
+	return err
+}
+
 func markBinOutputExecutable(target *model.Target) error {
 	if !target.HasBinOutput() {
 		return nil
